@@ -10,6 +10,7 @@ from concurrent.futures import ThreadPoolExecutor
 VERIF = os.path.dirname(os.path.dirname(os.path.abspath(__file__)))
 REPO = os.environ.get("VERIF_REPO", "/repo")
 BUILD = os.path.join(VERIF, "build")
+OUT = os.environ.get("VERIF_OUT", VERIF)       # evidence/ and replays/ live here (overridden by bin/mutate)
 SPEC = os.path.join(VERIF, "spec")
 HARNESS = os.path.join(VERIF, "harness")
 NCPU = os.cpu_count() or 4
@@ -386,7 +387,7 @@ class Check:
         self.cov["distinct_nontrivial"] += len(self._distinct)
         rc = 0
         nviol = 0
-        os.makedirs(os.path.join(VERIF, "evidence"), exist_ok=True)
+        os.makedirs(os.path.join(OUT, "evidence"), exist_ok=True)
         reported = set()
         for sig, text, replay in self.violations:
             if sig in listed:
@@ -397,7 +398,7 @@ class Check:
             nviol += 1
             if nviol > 20:
                 continue
-            d = os.path.join(VERIF, "replays", self.pid)
+            d = os.path.join(OUT, "replays", self.pid)
             os.makedirs(d, exist_ok=True)
             h = hashlib.sha1((sig + text).encode()).hexdigest()[:12]
             path = os.path.join(d, h + ".json")
@@ -415,7 +416,7 @@ class Check:
         if self.infra:
             ev["coverage"]["infrastructure_failures"] = self.infra[:10]
         if self.cov["evaluations"] < 1: self.cov["evaluations"] = max(1, self.cov["transitions"])
-        with open(os.path.join(VERIF, "evidence", self.pid + ".json"), "w") as f:
+        with open(os.path.join(OUT, "evidence", self.pid + ".json"), "w") as f:
             json.dump(ev, f, indent=1, default=str)
         if self.infra and rc == 0:
             for m in self.infra[:5]:
